@@ -108,6 +108,24 @@ CLAIMED = {
                  "Exact once-per-iteration over add/free histories is declined.",
          "note": STD_NOTE,
          "technique": "static analysis: dominator/post-path ordering (K3), pointer provenance (K8), traversal-cursor safety rule over natural loops (K9)"},
+ "C21": {"level": "other",
+         "text": "Guard structure of the refill and of configuration validation: in ev_token_bucket_update_ n_ticks is current_tick - last_updated, every store through the "
+                 "bucket is dominated by the rejection of (n_ticks == 0 || n_ticks > INT_MAX), per channel the product n_ticks*rate and the addition are reachable only "
+                 "past the failed quotient test (maximum - limit)/n_ticks < rate while the other edge stores the maximum, the read and write channels never mix operands "
+                 "(twin comparison), last_updated is advanced; ev_token_bucket_init_ clamps each level by its own maximum; ev_token_bucket_cfg_new allocates only after "
+                 "all rejection tests (rate > burst, rate < 1, values > EV_RATE_LIMIT_MAX, tick length). Decides the guard shape that makes the refill safe; absence of "
+                 "overflow for all 64-bit values needs bit-precise (solver) reasoning and is declined.",
+         "note": STD_NOTE,
+         "technique": "static analysis: dominating-guard rules (K4) and read/write twin comparison (K7) over clang CFGs"},
+ "C22": {"level": "other",
+         "text": "Who is charged what on every path: bufferevent_get_rlim_max_ only lowers its accumulator after starting from the per-operation maximum (K4); the size given to "
+                 "every transport transfer data-depends on bufferevent_get_read_max_/write_max_ (K8); every successful socket transfer is followed on all paths by the matching "
+                 "decrement with the transferred amount, TLS transfers by the decrement_buckets ops slot (K3); every function stored in that slot must reach both decrement "
+                 "functions (K10), and the read/write decrement functions agree modulo renaming (K7). Found and repaired a genuine defect (bufferevent_set_max_single_read/write "
+                 "were overridden by assignment instead of clamped) and records one known finding (the mbed TLS backend's decrement slot is a no-op, so mbed TLS traffic is never "
+                 "charged). Bytes per window of ticks and progress within one tick are declined.",
+         "note": STD_NOTE,
+         "technique": "static analysis: monotone-accumulator guard rule (K4), data dependence to transfer sinks (K8), must-follow ordering on CFG paths (K3), slot exhaustiveness (K10), twin comparison (K7)"},
  "C26": {"level": "other",
          "text": "Field-based taint over http.c/ws.c: the %s sinks of the serializer are discovered from its evbuffer_add_printf calls; every store into a printed field must "
                  "take NULL, a constant, a library-generated or wire-parsed string, or an API parameter that reaches the store only past a CR/LF-rejecting validator; unvalidated "
